@@ -334,6 +334,12 @@ private:
 
 
 /// Representing a PWL by points
+#ifdef MP_VERIF_HOOKS
+/// Verification hook (off by default): told about every breakpoint
+/// that PLPoints::AddPoint() drops because it is too close to its predecessor.
+inline void (*mp_verif_plpoint_skipped)(double x, double y) = nullptr;
+#endif
+
 struct PLPoints {
   /// Check if have information
   bool empty() const { return x_.empty(); }
@@ -361,6 +367,10 @@ struct PLPoints {
         y_.push_back(y);
       }
     }
+#ifdef MP_VERIF_HOOKS
+    else if (mp_verif_plpoint_skipped)
+      mp_verif_plpoint_skipped(x, y);
+#endif
   }
   /// Clear out
   void clear() {
